@@ -87,7 +87,7 @@ pub fn replay(scenfile: &str, dir: &str, seed: u64, stride: usize) {
             .iter()
             .map(|r| Rec {
                 id: format!("r{}x", r["id"].as_u64().unwrap()).into_bytes(),
-                desc: if r["desc"].as_u64().unwrap() == 1 { Some(b"d e  f".to_vec()) } else { None },
+                desc: match r["desc"].as_u64().unwrap() { 1 => Some(b"d e  f".to_vec()), 2 => Some(b"\tBC:Z:ACGT\tq x".to_vec()), _ => None },
                 seq: r["seq"].as_array().unwrap().iter().map(|b| b.as_u64().unwrap() as u8).collect(),
             })
             .collect();
